@@ -248,4 +248,121 @@ theorem ctxOfName_client (id : Bytes) (hv : validateID id = true) :
       ctxOfBase_plain _ hne hs (not_hasSuffix_of_last hlast (d := 100) (by decide) (by decide))]
     simp only [hmacName, hasSuffix_append, if_true, dropSuffix_append]
 
+/-! ## rotated keys -/
+
+theorem takeWhile_append_stop {α} (p : α → Bool) (l₁ l₂ : List α) (x : α) (h1 : ∀ a ∈ l₁, p a = true) (hx : p x = false) :
+    (l₁ ++ x :: l₂).takeWhile p = l₁ := by
+  induction l₁ with
+  | nil => simp [List.takeWhile_cons, hx]
+  | cons a r ih =>
+    simp only [List.cons_append, List.takeWhile_cons, h1 a (by simp), if_true]
+    rw [ih (fun b hb => h1 b (by simp [hb]))]
+
+theorem dropWhile_append_stop {α} (p : α → Bool) (l₁ l₂ : List α) (x : α) (h1 : ∀ a ∈ l₁, p a = true) (hx : p x = false) :
+    (l₁ ++ x :: l₂).dropWhile p = x :: l₂ := by
+  induction l₁ with
+  | nil => simp [List.dropWhile_cons, hx]
+  | cons a r ih =>
+    simp only [List.cons_append, List.dropWhile_cons, h1 a (by simp), if_true]
+    exact ih (fun b hb => h1 b (by simp [hb]))
+
+/-- the last component of `a/t` -/
+theorem base_append_slash (a t : Bytes) (ht : t ≠ []) (hs : slash ∉ t) : base (a ++ slash :: t) = t := by
+  obtain ⟨q, c, rfl⟩ : ∃ q c, t = q ++ [c] := ⟨t.dropLast, t.getLast ht, (List.dropLast_concat_getLast ht).symm⟩
+  have hc : c ≠ slash := fun e => hs (by simp [e])
+  unfold base
+  have hne : a ++ slash :: (q ++ [c]) ≠ [] := by simp
+  rw [if_neg hne]
+  have hrev : (a ++ slash :: (q ++ [c])).reverse = (c :: q.reverse) ++ slash :: a.reverse := by simp
+  have hstrip : stripTrailingSlashes (a ++ slash :: (q ++ [c])) = a ++ slash :: (q ++ [c]) := by
+    unfold stripTrailingSlashes
+    rw [hrev]
+    simp [List.dropWhile_cons, hc]
+  have hall : ∀ x ∈ c :: q.reverse, (decide (x ≠ slash)) = true := by
+    intro x hx
+    have : x ∈ q ++ [c] := by
+      simp only [List.mem_cons, List.mem_reverse] at hx
+      simp only [List.mem_append, List.mem_singleton]
+      rcases hx with h | h
+      · exact Or.inr h
+      · exact Or.inl h
+    simpa using fun e : x = slash => hs (e ▸ this)
+  have hafter : afterLastSlash (a ++ slash :: (q ++ [c])) = q ++ [c] := by
+    unfold afterLastSlash
+    rw [hrev, takeWhile_append_stop _ _ _ slash hall (by simp)]
+    simp
+  rw [hstrip, hafter]
+  simp
+
+theorem uptoLastSlash_append (a t : Bytes) (hs : slash ∉ t) : uptoLastSlash (a ++ slash :: t) = a ++ [slash] := by
+  unfold uptoLastSlash
+  have hrev : (a ++ slash :: t).reverse = t.reverse ++ slash :: a.reverse := by simp
+  have hall : ∀ x ∈ t.reverse, (decide (x ≠ slash)) = true := by
+    intro x hx
+    simpa using fun e : x = slash => hs (e ▸ (List.mem_reverse.mp hx))
+  rw [hrev, dropWhile_append_stop _ _ _ slash hall (by simp)]
+  simp
+
+/-- `filepath.Clean("m/")` = `m` for one ordinary component -/
+theorem clean_comp_slash (m : Bytes) (hm : GoodComp m) : clean (m ++ [slash]) = m := by
+  have hhead : (m ++ [slash]).head? ≠ some slash := by
+    cases m with
+    | nil => exact absurd rfl hm.1
+    | cons x r =>
+      simp only [List.cons_append, List.head?_cons, ne_eq, Option.some.injEq]
+      exact fun e => hm.2.2.2 (by simp [e])
+  have hsplit : splitSlash (m ++ [slash]) = [m, []] := by
+    have := splitSlash_append m []
+    simp only [splitSlash] at this
+    rw [this, splitSlash_noslash_eq m hm.2.2.2]
+    rfl
+  unfold clean cleanP
+  simp only [hsplit]
+  have hr : decide ((m ++ [slash]).head? = some slash) = false := decide_eq_false hhead
+  simp only [hr, cleanStack, List.foldl_cons, List.foldl_nil]
+  have h1 : pushComp false [] m = [m] := by
+    unfold pushComp
+    rw [if_neg (by simp [hm.1, hm.2.1]), if_neg hm.2.2.1]
+  rw [h1]
+  have h2 : pushComp false [m] [] = [m] := by simp [pushComp]
+  rw [h2]
+  simp [render, joinSlash]
+
+/-- **A rotated key gets the context of its key file.** For a key file name `n` that is one
+ordinary component (every per-client file of a valid id) and a timestamp `ts`:
+`getContextFromFilename("<n>.old/<ts>") = getContextFromFilename("<n>")`. -/
+theorem ctxOfName_hist (n ts : Bytes) (hn : GoodComp (n ++ sOld)) (hnh : isHistorical n = false)
+    (hts : isTimestamp ts = true) (hne : ts ≠ []) : ctxOfName (histName n ts) = ctxOfName n := by
+  have hslash : slash ∉ ts := fun hm => by
+    have := isTimestamp_chars hts slash hm
+    revert this; decide
+  have hname : histName n ts = (n ++ sOld) ++ slash :: ts := by simp [histName]
+  have hh : isHistorical (histName n ts) = true := by
+    unfold isHistorical
+    rw [hname, base_append_slash _ _ hne hslash]; exact hts
+  have hdir : dirOf (histName n ts) = n ++ sOld := by
+    unfold dirOf
+    rw [hname, uptoLastSlash_append _ _ hslash, clean_comp_slash _ hn]
+  unfold ctxOfName
+  simp only [hh, if_true, hdir, trimSuffix_append, hnh, Bool.false_eq_true, if_false]
+
+
+
+/-- rotated keys of a valid client: same context as the current file, i.e. the client id -/
+theorem ctxOfName_client_hist (id ts : Bytes) (hv : validateID id = true) (hts : isTimestamp ts = true) (hne : ts ≠ []) :
+    ctxOfName (histName (storageName id) ts) = CrossClient.newClientIDKeyContext pStoragePrivate id ∧
+    ctxOfName (histName (symName id) ts) = CrossClient.newClientIDKeyContext pStorageSym id ∧
+    ctxOfName (histName (hmacName id) ts) = CrossClient.newClientIDKeyContext pSearchHMAC id := by
+  obtain ⟨h1, h2, h3⟩ := ctxOfName_client id hv
+  refine ⟨?_, ?_, ?_⟩
+  · rw [ctxOfName_hist _ ts (by simpa [storageName, List.append_assoc] using goodComp_valid_append hv (sStorage ++ sOld) (by decide)) ?_ hts hne, h1]
+    have : storageName id = (id ++ ofStr "_storag") ++ [101] := by simp [storageName, sStorage, ofStr]
+    rw [this]; exact not_isHistorical_of_last _ 101 (by decide) (by decide)
+  · rw [ctxOfName_hist _ ts (by simpa [symName, List.append_assoc] using goodComp_valid_append hv (sStorage ++ (sSym ++ sOld)) (by decide)) ?_ hts hne, h2]
+    have : symName id = (id ++ ofStr "_storage_sy") ++ [109] := by simp [symName, sStorage, sSym, ofStr]
+    rw [this]; exact not_isHistorical_of_last _ 109 (by decide) (by decide)
+  · rw [ctxOfName_hist _ ts (by simpa [hmacName, List.append_assoc] using goodComp_valid_append hv (sHmac ++ sOld) (by decide)) ?_ hts hne, h3]
+    have : hmacName id = (id ++ ofStr "_hma") ++ [99] := by simp [hmacName, sHmac, ofStr]
+    rw [this]; exact not_isHistorical_of_last _ 99 (by decide) (by decide)
+
 end AcraModel.KeystoreSec.V1
